@@ -87,6 +87,25 @@ type TimeBucketInfo struct {
 	once sync.Once
 }
 
+// CheckHeaderCapacity reports whether a column schema can be stored faithfully in a file header:
+// at most 1024 columns, each name at most 32 bytes long and free of NUL bytes (names are
+// NUL-padded in the header).
+func CheckHeaderCapacity(elementNames []string) error {
+	if len(elementNames) > maxNumElements {
+		return fmt.Errorf("%d columns: a bucket can have at most %d", len(elementNames), maxNumElements)
+	}
+	for _, name := range elementNames {
+		if len(name) > elementNameHeaderBytes {
+			return fmt.Errorf("column name %q is %d bytes long: at most %d bytes can be stored",
+				name, len(name), elementNameHeaderBytes)
+		}
+		if bytes.IndexByte([]byte(name), 0) >= 0 {
+			return fmt.Errorf("column name %q contains a NUL byte", name)
+		}
+	}
+	return nil
+}
+
 func AlignedSize(unalignedSize int) (alignedSize int) {
 	machineWordSize := int(unsafe.Alignof(uintptr(0)))
 	remainder := unalignedSize % machineWordSize
